@@ -160,13 +160,15 @@ class Celestial(Dynamics, metaclass=ABCMeta):
             # The solver only reports the first of several terminal events that occur at the same
             # time, so scheduled impulses and finite thrust boundaries coinciding with the time
             # integration stopped at are collected as well, otherwise they are silently dropped.
+            # [NOTE]: the root finder only locates the stop time to within a few floating point
+            #   spacings, so "the same time" is judged with that tolerance.
             stop_time = max(time for _, time in occurred)
             occurred.extend(
                 (event, stop_time)
                 for t_event, event in zip(t_events, events)
                 if t_event.size == 0
                 and isinstance(event, (ScheduledImpulse, ScheduledFiniteThrust))
-                and event(stop_time, None) == 0.0
+                and abs(event(stop_time, None)) <= 8 * spacing(stop_time)
             )
         return occurred
 
